@@ -10,4 +10,11 @@ def components(ctx):
 
 
 def check(ctx):
-    return vlib.standard_check(ctx, MODULES, components(ctx), assumptions=ec.ASSUMPTIONS, trusted=ec.TRUSTED)
+    # timers live in datastruct/timerqueue.c + ptrheap.c (files of this property): their model, theorems and components
+    # (pointer heap and timer queue against the ideal priority queue, handle consistency) are C13's and run here as well.
+    # event records come from datastruct/mpool.h pools (also a file of this property): C12's pool component runs too.
+    from props import c13 as _c13
+    from props import c12 as _c12
+    pool = [c for c in _c12.components(ctx) if c.name == "mp"]
+    return vlib.standard_check(ctx, MODULES + _c13.MODULES, components(ctx) + _c13.components(ctx) + pool,
+                               assumptions=ec.ASSUMPTIONS, trusted=ec.TRUSTED)
